@@ -256,6 +256,7 @@ func runTotality(run *core.Run, items []xlate.Item) {
 						}
 					}
 				}
+				q := base
 				for ri, rn := range renames {
 					vs := variants(P)
 					if ri > 0 {
@@ -267,31 +268,31 @@ func runTotality(run *core.Run, items []xlate.Item) {
 					}
 					for vi, variant := range vs {
 						c := tcase{Part: "totality", Text: it.Text, Source: it.Source, Rename: rn, Variant: variant}
-						var q *cypher.RegularQuery
-						if ri == 0 && vi == 0 {
-							q = base
-						} else if q, err = cyq.Parse(it.Text); err != nil {
-							continue
-						}
 						cc := c
 						slots[w].current.Store(&cc)
 						slots[w].started.Store(time.Now().UnixNano())
 						r := evaluateOn(q, c, mappers[w])
 						slots[w].started.Store(0)
 						record(i*1000+ri*50+vi, c, r)
+						// the same AST serves all variants (purity was just checked); after an impure call or an AST-level
+						// renaming (a renamed parameter may now share its symbol with another one) start from a fresh parse
+						if r.impure != "" || len(rn) > 0 {
+							if q, err = cyq.Parse(it.Text); err != nil {
+								break
+							}
+						}
 						if ri == 0 && vi == 0 && (r.kind == "ok" || r.kind == "error") {
-							// determinism: two more translations of fresh parses must give byte-identical results
-							hc := hcase{Text: it.Text, Variant: variant}
-							first := translateCanonical(hc, mappers[w])
+							// determinism: two more translations must give byte-identical results
+							first := canonicalOn(q, variant, mappers[w])
 							for rep := 0; rep < 2; rep++ {
-								again := translateCanonical(hc, mappers[w])
+								again := canonicalOn(q, variant, mappers[w])
 								mu.Lock()
 								evals++
 								repeats++
 								mu.Unlock()
 								if again != first {
 									mu.Lock()
-									findings = append(findings, finding{i*1000 + 999, core.Violation{Class: "nondeterministic-translation", Summary: fmt.Sprintf("two translations of %q differ:\n  %s\n  %s", it.Text, first, again), Artefact: hartefact{Part: "history", Second: hc, Repeat: 20}}})
+									findings = append(findings, finding{i*1000 + 999, core.Violation{Class: "nondeterministic-translation", Summary: fmt.Sprintf("two translations of %q differ:\n  %s\n  %s", it.Text, first, again), Artefact: hartefact{Part: "history", Second: hcase{Text: it.Text, Variant: variant}, Repeat: 20}}})
 									mu.Unlock()
 									break
 								}
